@@ -348,6 +348,9 @@ REFDRV = os.path.join(LEAN, '.lake', 'build', 'bin', 'refdrv')
 
 
 def run_impl(ctx, stream, ops, np=None):
+    if callable(stream.harness):
+        # python runner driving binaries rebuilt from /repo's working tree (end-to-end CLI streams)
+        return stream.harness(ctx, stream, ops, np)
     exe = build_harness(ctx, stream)
     env = dict(os.environ)
     env['MALLOC_PERTURB_'] = str(1 + (ctx.seed * 37 + 11) % 254)
@@ -387,6 +390,12 @@ def compare(ctx, stream, ops, np=None):
     rc, impl, err = run_impl(ctx, stream, ops, np)
     r = {'rc': rc, 'impl': impl, 'stderr': err, 'model': None, 'first_diff': None}
     ro = real_ops(ops)
+    if stream.kind == 'oracle':
+        # no model side: the stream exists for its oracle (end-to-end statement of the property)
+        r['status'] = 'ok' if (rc == 0 and len(impl) == len(ro)) else 'impl-crash'
+        if r['status'] != 'ok':
+            r['first_diff'] = len(impl)
+        return r
     if stream.kind == 'validate':
         if rc != 0:
             r['status'] = 'impl-crash'
@@ -609,20 +618,24 @@ def handle_failure(ctx, stream, np, ops, r, ofail, label):
             'impl_line': rr['impl'][i] if i is not None and i < len(rr['impl']) else None,
             'model_line': rr['model'][i] if rr['model'] and i is not None and i < len(rr['model']) else None,
             'impl_rc': rr['rc'], 'impl_stderr_tail': rr['stderr'][-1500:] if rr['stderr'] else '',
-            'oracle_failures': of[:10], 'harness': stream.harness, 'driver': stream.driver}
+            'oracle_failures': of[:10], 'harness': getattr(stream.harness, '__name__', stream.harness),
+            'driver': stream.driver}
+    # an oracle failure may carry a third element: a stable `site` id used by known_findings.json
+    site = of[0][2] if of and len(of[0]) > 2 else getattr(stream, 'site', None)
     if rr['status'] == 'impl-crash':
         # a crash / sanitizer abort / timeout of the real code on a generated input is a concrete failing input
         info['verdict'] = 'implementation aborted (rc=%s) on this input' % rr['rc']
         path, key = write_replay(ctx, stream, np, small, info)
-        report(ctx, path, key, True, info['verdict'])
+        report(ctx, path, key, True, info['verdict'], site=getattr(stream, 'crash_site', None))
     elif rr['status'] == 'invariant':
         info['verdict'] = 'model invariant false on an implementation state: %s' % (rr['model'][i] if rr['model'] else '')
         path, key = write_replay(ctx, stream, np, small, info)
         report(ctx, path, key, True, info['verdict'])
     elif of:
         info['verdict'] = 'property oracle fails on the implementation output: %s' % (of[0][1],)
+        info['site'] = site
         path, key = write_replay(ctx, stream, np, small, info)
-        report(ctx, path, key, True, info['verdict'])
+        report(ctx, path, key, True, info['verdict'], site=site)
     else:
         # Stage C: the correspondence broke but the property holds on this input: search further
         found = stage_c_search(ctx, stream, np)
